@@ -95,6 +95,7 @@ func main() {
 	}
 	start := time.Now()
 	c := &ctx{tier: *tier, seed: *seed, scale: 1, pool: pool}
+	modelTier = *tier
 	if *tier == "thorough" {
 		c.scale = 8
 	}
